@@ -300,6 +300,13 @@ class MPContext(BaseMPContext, StandardBaseContext):
         """
         a = ctx.__class__()
         a.prec = ctx.prec
+        # Links used by code that needs a second context (Riemann-Siegel
+        # coefficients, zetazero, primepi2); mpmath/__init__.py sets them
+        # up for the global contexts only
+        a._mp = a
+        for name in ('_fp', '_iv'):
+            if hasattr(ctx, name):
+                setattr(a, name, getattr(ctx, name))
         return a
 
     # Several helper methods
